@@ -48,7 +48,7 @@ def cases(tier, seed):
         out.insert(0, pool.ambient_case(PID))
     if tier == 'thorough':
         out.insert(0, pool.ambient_docs_case(PID))
-    reps = 1 if tier == 'quick' else 6
+    reps = 1 if tier == 'quick' else 20
     for rep in range(reps):
         for D in (1, 3):
             for P in (1, 2, 3):
